@@ -39,7 +39,9 @@ def main():
             print("PATCH-DOES-NOT-APPLY %s\n%s" % (name, r.stdout))
             return 2
         h = os.path.join(base, "harness")
-        shutil.copytree(os.path.join(V, "harness"), h, ignore=shutil.ignore_patterns("target", "target-async"))
+        # the build output is copied too (mtimes preserved): registry dependencies stay fresh, only the
+        # library under test (other path => other package id) and the harness binaries are rebuilt
+        subprocess.run(["cp", "-a", os.path.join(V, "harness"), h], check=True)
         ct = os.path.join(h, "Cargo.toml")
         s = open(ct).read().replace('path = "/repo"', 'path = "%s"' % repo)
         open(ct, "w").write(s)
